@@ -24,11 +24,11 @@ Three layers:
   `response_is_the_single_transmitters`.  They hold for EVERY state and EVERY event (so in particular
   along every legal host history, from reset or not).
 
-NOT proved here (PARTIAL): "never while a received packet is still in progress" (`tx_valid → ¬rx_active`) is a
-timing fact across ~8 cycle-level modules (every request strobe is downstream of a `tx_allowed` /
-`ready_for_response` pulse of an inter-packet timer that is started when `rx_active` falls), and the
-refinement from cycles to events.  Both are validated on the real device by the cycle monitor of
-harness/props/c20.py on every run.
+"Never while a received packet is still in progress" (`tx_valid → ¬rx_active`) is proved on the cycle-level
+composition of the packet layer (`Model/Device/DevCyc.lean`) in `Lemmas/C20CycMain.lean` (`tx_never_during_rx`,
+`tx_only_in_response_window`, `transmitters_exclusive`, `pulse_only_after_delay`) under an explicit host assumption and
+endpoint discipline; `Lemmas/C20CycEvent.lean` has the handshake-response case of the cycles -> events refinement.
+What remains unproved is listed in harness/props/c20.py `PARTIAL` and notes/C20.md.
 -/
 namespace LunaVerif.C20
 open LunaVerif LunaVerif.Device LunaVerif.Device.Full
